@@ -119,8 +119,15 @@ func (a *IBCAdapter) ParsePacket(
 		return nil, err
 	}
 
+	// NOTE: sdk.NewCoin panics on invalid inputs (e.g. negative amount), the coin is validated
+	// explicitly to return an error instead.
+	coin := sdk.Coin{Denom: denom, Amount: amount}
+	if err := coin.Validate(); err != nil {
+		return nil, errorsmod.Wrap(err, "invalid coin")
+	}
+
 	return &types.ParsedData{
-		Coin:    sdk.NewCoin(denom, amount),
+		Coin:    coin,
 		Payload: *payload,
 	}, nil
 }
